@@ -95,22 +95,44 @@ func runConc(c *Ctx, jobs []*SynJob, items map[string][]*DFeed, G, repeat int) e
 	if err != nil {
 		return err
 	}
-	var cases []*DCase
+	raceDir := filepath.Join(c.W.Dir, "racelogs")
+	os.MkdirAll(raceDir, 0777)
+	env := []string{"GORACE=halt_on_error=0 log_path=" + filepath.Join(raceDir, "race")}
+	// pass 1, its own process: the sequential observations of every input
+	var seqCases []*DCase
 	var live []*SynJob
 	for _, j := range jobs {
 		if j.Dropped != "" {
 			c.Inconclusive(j.Name + ": " + j.Dropped)
 			continue
 		}
-		cases = append(cases, &DCase{G: j.Name, Op: "conc", Items: items[j.Name], Goroutines: G, Repeat: repeat, Seed: c.Seed})
 		live = append(live, j)
+		for _, f := range items[j.Name] {
+			seqCases = append(seqCases, &DCase{G: j.Name, Op: "parse", Feed: f})
+		}
 	}
-	if len(cases) == 0 {
+	if len(seqCases) == 0 {
 		return fmt.Errorf("no concurrency case could be built")
 	}
-	raceDir := filepath.Join(c.W.Dir, "racelogs")
-	os.MkdirAll(raceDir, 0777)
-	env := []string{"GORACE=halt_on_error=0 log_path=" + filepath.Join(raceDir, "race")}
+	seq, err := c.RunCases(bin, seqCases, 1, env)
+	if err != nil {
+		return err
+	}
+	// pass 2, a fresh process: goroutines start cold
+	var cases []*DCase
+	k := 0
+	for _, j := range live {
+		var exp []DPResult
+		for range items[j.Name] {
+			if seq[k].P != nil {
+				exp = append(exp, *seq[k].P)
+			} else {
+				exp = append(exp, DPResult{End: "driver-error", Msg: seq[k].Err})
+			}
+			k++
+		}
+		cases = append(cases, &DCase{G: j.Name, Op: "conc", Items: items[j.Name], Goroutines: G, Repeat: repeat, Seed: c.Seed, Expect: exp})
+	}
 	results, err := c.RunCases(bin, cases, 1, env)
 	if err != nil {
 		return err
